@@ -34,6 +34,8 @@ def c01(tier, seed):
             for s in seeds(seed, nseed):
                 shards.append(["-family", "kv", "-mode", mode, "-rw", rw, "-seed", str(s),
                                "-hist", str(hist), "-steps", str(steps)])
+    # the sleep-across-expiry scenario: reads in the very second in which now == timestamp + TTL
+    shards += [["-family", "ttl", "-mode", m, "-seed", str(seed), "-hist", "1"] for m in ("keyval", "keyonly")]
     # component check of bptree.go on its own: ~110 keys, several levels of splits
     shards += fam_shards([("bptree", [])], seed, 1 if tier == "quick" else 10, 1 if tier == "quick" else 2, 10 if tier == "quick" else 40)
     rs = core.drive_and_validate(res, shards, core.dev_set(), "KV read result differs from the ordered-map model",
@@ -440,6 +442,7 @@ def c02(tier, seed):
     for rw in ("fileio", "mmap"):
         shards += fam_shards([("kv", ["-mode", "sparse", "-rw", rw])], seed, 2 if q else 20, 3 if q else 4, 40 if q else 100)
     shards += fam_shards([("page", ["-mode", "sparse"])], seed, 1 if q else 10, 2, 30 if q else 60)
+    shards += [["-family", "ttl", "-mode", "sparse", "-seed", str(seed), "-hist", "1"]]
     rs = core.drive_and_validate(res, shards, core.dev_set(), "a sparse-mode read (or a reopen) returned something else than the live pairs of the bucket",
                                  "single-bucket Put/PutWithTimestamp/Delete histories in HintBPTSparseIdxMode with 128-512 byte segments (most keys in sealed segments), Close/Open every ~12 transactions")
     res.cov["samples"] = core.sample_events(rs[0]["trace"], 6, ops={"get", "obs", "open"})
